@@ -31,6 +31,15 @@ def plans_for(tier, rng):
     finals += [{"kind": "bad_checksum", "i": i} for i in range(8)]
     finals += [{"kind": "plain_prefix", "n": n} for n in (0, 1, 2, 135, 269, 270)] + [{"kind": "plain_suffix", "n": n} for n in (1, 2, 16)]
     finals += [{"kind": "extended", "n": n} for n in (1, 2, 16, 255)]
+    # several bytes of the signature altered at once (a comparison that accumulates differences wrongly - xor instead of
+    # or, a sum, a sorted or last-byte-only compare - lets exactly such replies through): the same bit flipped in two
+    # checksum bytes, two checksum bytes swapped, a constant checksum, the same bit in two bytes of the sealed value
+    pairs = [(i, j) for i in range(8) for j in range(i + 1, 8)]
+    finals += [{"kind": "token_xor", "xor": [[4 + i, 1 << b], [4 + j, 1 << b]]} for (i, j) in pairs for b in ((0, 7) if tier == "quick" else range(8))]
+    finals += [{"kind": "token_xor", "swap": [4 + i, 4 + j]} for (i, j) in (pairs[::3] if tier == "quick" else pairs)]
+    finals += [{"kind": "token_xor", "fill": v} for v in (0, 255)]
+    finals += [{"kind": "token_xor", "xor": [[16 + i, 1 << (i % 8)], [17 + 2 * i, 1 << (i % 8)]]} for i in range(0, 120, 8 if tier == "quick" else 1)]
+    finals += [{"kind": "token_xor", "xor": [[12, 1], [4 + i, 1]]} for i in range(8)]
     plans = []
     k = 0
     for f in finals:
